@@ -203,6 +203,8 @@ pub enum FontInfoErrorKind {
     DuplicateGuidelineIdentifiers,
     /// Found an empty WOFF element or record. If you have them, you have to fill them all in.
     EmptyWoffAttribute(&'static str),
+    /// A guideline had an angle outside of the range 0-360 degrees.
+    InvalidGuidelineAngle,
     /// The openTypeHeadCreated had the wrong format.
     InvalidOpenTypeHeadCreatedDate,
     /// The openTypeOS2FamilyClass had out of range values.
@@ -246,6 +248,9 @@ impl std::fmt::Display for FontInfoErrorKind {
             }
             EmptyWoffAttribute(s) => {
                 write!(f, "a '{}' element must not be empty", s)
+            }
+            InvalidGuidelineAngle => {
+                write!(f, "a guideline angle must be between 0 and 360 degrees")
             }
             InvalidOpenTypeHeadCreatedDate => {
                 write!(f, "openTypeHeadCreated must be of format 'YYYY/MM/DD HH:MM:SS'")
